@@ -73,7 +73,7 @@ func safeSend(a *Node, b *nom.AccountBlock) (res *nom.AccountBlock) {
 }
 
 // the producer's history: transfers with their receives, contract calls, momentums (with auto-receives / updates)
-func produceHistory(a *Node, rng *rand.Rand, out *Out, steps int) {
+func produceHistory(a *Node, rng *rand.Rand, out *Out, steps int, plan *depPlan) {
 	var pending []*nom.AccountBlock // sends waiting to be received by a user
 	zexp := big.NewInt(g.Zexp)
 	for s := 0; s < steps; s++ {
@@ -148,9 +148,14 @@ func produceHistory(a *Node, rng *rand.Rand, out *Out, steps int) {
 					i := rng.Intn(len(pending))
 					sb := pending[i]
 					if h, _ := a.Ch.GetFrontierMomentumStore().GetBlockConfirmationHeight(sb.Hash); h != 0 {
-						a.Z.InsertReceiveBlock(sb.Header(), nil, nil, mock.SkipVmChanges)
-						pending = append(pending[:i], pending[i+1:]...)
-						out.Count("history:receive")
+						if rng.Intn(2) == 0 {
+							plan.receiveProbe(a, rng, out, sb, h)
+						}
+						// an account whose fusion was cancelled cannot pay for the receive: stays pending
+						if rb, _ := insertValid(a, &nom.AccountBlock{BlockType: nom.BlockTypeUserReceive}, sb); rb != nil {
+							pending = append(pending[:i], pending[i+1:]...)
+							out.Count("history:receive")
+						}
 					}
 				}
 			}
@@ -181,6 +186,8 @@ func produceHistory(a *Node, rng *rand.Rand, out *Out, steps int) {
 		} else {
 			a.Momentum()
 		}
+		// blocks whose verdict depends on the ledger of the momentum they acknowledge (dependent.go)
+		plan.episode(a, rng, out, s)
 	}
 	a.Momentum()
 	a.Momentum()
@@ -419,7 +426,9 @@ func runReplay(rng *rand.Rand, n int, out *Out, _ []string) {
 func replayHistory(rng *rand.Rand, out *Out, first bool) {
 	a := NewNode()
 	defer a.Stop()
-	produceHistory(a, rng, out, 10+rng.Intn(25))
+	steps := 8 + rng.Intn(22) // plus 3..4 episodes of 4..10 momentums each (dependent.go)
+	plan := newDepPlan(rng, steps)
+	produceHistory(a, rng, out, steps, plan)
 	fr := FrontierOf(a.Ch)
 	chainD := DetailedRange(a.Ch, 2, fr.Height)
 	chainT := chainTerm(chainD)
@@ -503,6 +512,8 @@ func replayHistory(rng *rand.Rand, out *Out, first bool) {
 		out.Oracle(bytes.Equal(dd, refDump), "replay-ledger-dump-equal", M{"schedule": "early-gossip", "first_difference": firstDiff(refDump, dd)})
 		r.b.Destroy()
 	}
+	// directed schedules for the blocks whose verdict depends on the acknowledged momentum's ledger
+	dependentSchedules(rng, out, chainD, chainT, refDump, fr, plan)
 	// answers from historical views: the live producer (warm caches) vs a receiver after a restart (cold)
 	cold := rs[1].b.Reopen()
 	rs[1].b = cold
